@@ -135,6 +135,15 @@ class TriggerHandler:
         :param arg: the args
         :return: None to ignore other calls, or our self to continue
         """
+        try:
+            return self.__trace_call(frame, event, arg)
+        except BaseException:
+            # a failure inside the agent must never be raised into the application: python would re-raise it in the
+            # traced code and remove the trace function for the thread
+            logging.exception("Cannot process trace event %s", event)
+            return self.trace_call
+
+    def __trace_call(self, frame: FrameType, event: str, arg):
         event, file, line, function = self.location_from_event(event, frame)
         trigger_context = TriggerContext(self._config, self._push_service, frame, event, arg)
 
